@@ -315,3 +315,25 @@ package writer
 //@     assume segstore.wipBlock.blockSummary.LowTs <= segstore.wipBlock.blockSummary.HighTs && int(segstore.wipBlock.blockSummary.RecCount) <= len(segstore.wipBlock.blockTs) && forall(k, 0, int(segstore.wipBlock.blockSummary.RecCount), segstore.wipBlock.blockSummary.LowTs <= segstore.wipBlock.blockTs[k] && segstore.wipBlock.blockTs[k] <= segstore.wipBlock.blockSummary.HighTs)
 //@   note the block-summary invariant (LowTs <= every buffered timestamp <= HighTs, RecCount <= len(blockTs)) at the call of encodeTimestamps is an UNCHECKED site assumption: it is established by the ingest path, which is not under contract
 //@ end
+
+// C03 (answers from the aggregation tree equal a scan): the agile tree keeps
+// one dictionary, one reverse dictionary and one next-code counter per group-by
+// column in three parallel arrays.  Dropping columns must compact all three
+// with the same index set, so that position j of each array still belongs to
+// the same column: new[j] is old[keptIdx(dropIndexes, j)] for every array.
+//@ func (*StarTreeBuilder).dropColumn
+//@   assumed
+//@   preserves stb.segDictMap, stb.segDictEncRev, stb.segDictLastNum, contents(stb.segDictMap), contents(stb.segDictEncRev), contents(stb.segDictLastNum)
+//@   note frame by exclusion, ASSUMED: removing a tree level rewrites tree nodes, groupByKeys and numGroupByCols, not the per-column dictionaries
+//@ end
+
+//@ func (*StarTreeBuilder).DropColumns
+//@   props C03
+//@   requires stb != nil && len(stb.segDictLastNum) == len(stb.segDictMap) && len(stb.segDictEncRev) == len(stb.segDictMap)
+//@   loop 3:
+//@     invariant samebase(stb.segDictLastNum, old(stb.segDictLastNum)) && len(stb.segDictLastNum) == old(len(stb.segDictLastNum))
+//@     invariant samebase(stb.segDictMap, old(stb.segDictMap)) && len(stb.segDictMap) == old(len(stb.segDictMap))
+//@     invariant samebase(stb.segDictEncRev, old(stb.segDictEncRev)) && len(stb.segDictEncRev) == old(len(stb.segDictEncRev))
+//@   ensures [counters-aligned-with-dictionaries] implies(result == nil && len(colsToDrop) > 0, len(stb.segDictLastNum) == len(stb.segDictMap) && forall(j, 0, len(stb.segDictLastNum), stb.segDictLastNum[j] == old(stb.segDictLastNum)[uf("keptIdx", int, dropIndexes, j)] && stb.segDictMap[j] == old(stb.segDictMap)[uf("keptIdx", int, dropIndexes, j)]))
+//@   ensures [reverse-dictionaries-aligned] implies(result == nil && len(colsToDrop) > 0, len(stb.segDictEncRev) == len(stb.segDictMap) && forall(j, 0, len(stb.segDictEncRev), stb.segDictEncRev[j] == old(stb.segDictEncRev)[uf("keptIdx", int, dropIndexes, j)]))
+//@ end
